@@ -91,7 +91,33 @@ class FakeNpLinalg:
         return Arr(a.shape, a.legs, a.dt, None, {}, 'matrix_power')
 
 
+class _Ufunc:
+    """np.add / np.subtract / np.multiply: callable, with the unbuffered in-place form .at(a, indices, b)"""
+
+    def __init__(self, name, op):
+        self.name, self.op = name, op
+
+    def __call__(self, a, b, **k):
+        if k:
+            raise AnalysisError(f'np.{self.name} with keyword arguments has no model')
+        return getattr(as_arr(a), f'__{self.op}__')(b) if not isinstance(a, (int, float, complex)) or isinstance(b, Arr) else getattr(a, f'__{self.op}__')(b)
+
+    def at(self, a, indices, b=None):
+        if not isinstance(a, Arr) or b is None:
+            raise AnalysisError(f'np.{self.name}.at in this form has no model')
+        idx = A.expand_index(a, indices if isinstance(indices, tuple) else (indices,))
+        vecs = [(pos, x) for pos, x in enumerate(idx) if (isinstance(x, Arr) and x.ndim >= 1) or isinstance(x, list)]
+        if not vecs or not all((isinstance(x, Arr) and x.ndim == 1) or isinstance(x, A.IntVec) for _, x in vecs):
+            raise AnalysisError(f'np.{self.name}.at with these index operands has no model')
+        A.point_store(a, idx, vecs, b, self.op)
+        return None
+
+
 class FakeNumpy:
+    add = _Ufunc('add', 'add')
+    subtract = _Ufunc('subtract', 'sub')
+    multiply = _Ufunc('multiply', 'mul')
+
     ndarray = NdarrayType
     inf = math.inf
     pi = math.pi
@@ -427,6 +453,19 @@ class FakeNumpy:
         return (idx,)
 
     @staticmethod
+    def nonzero(cond):
+        return FakeNumpy.where(cond)
+
+    @staticmethod
+    def flatnonzero(cond):
+        return FakeNumpy.where(cond)[0]
+
+    @staticmethod
+    def ascontiguousarray(a, dtype=None):
+        a = as_arr(a)
+        return a.copy() if dtype is None else a.astype(dtype)
+
+    @staticmethod
     def count_nonzero(cond, *a, **kw):
         cond = as_arr(cond)
         n = cond.size
@@ -515,18 +554,27 @@ def einsum(pattern, *ops):
                 size[ch] = s
             if g or not holders.get(ch):
                 holders.setdefault(ch, []).append((o, g))
-    # typing: a label that is summed (absent from the output) and appears in exactly two operands is a contraction;
-    # a label kept in the output and shared by operands is a Hadamard (batch) index
-    for ch, hs in holders.items():
-        if ch not in out and len(hs) == 2 and A.CTX.typed:
-            (oa, ga), (ob, gb) = hs
-            if len(ga) == len(gb):
-                for x, y in zip(ga, gb):
-                    why = A.can_contract(x, y)
-                    if why:
-                        A.CTX.event('contract-type-error', a=oa, b=ob, axes=(ch,), detail=f'einsum {pattern}: {why}')
-        if ch not in out and len(hs) == 1:
-            A.CTX.event('sum-axis', array=hs[0][0], axes=(ch,), legs=[hs[0][1]])
+    # typing: a label that is summed (absent from the output) and appears in exactly two operands is a contraction of those two operands
+    # (same rule, same 'contract' / 'stale-read' events as np.tensordot); a label kept in the output and shared by operands is a Hadamard (batch) index
+    pairs = {}
+    where = {}
+    for k_, (sub, o) in enumerate(zip(ins, ops)):
+        for ax, ch in enumerate(sub):
+            where.setdefault(ch, []).append((k_, ax))
+    for ch, occ in where.items():
+        if ch in out:
+            continue
+        if len(occ) == 2 and occ[0][0] != occ[1][0]:
+            (ka, ia), (kb, ib) = occ
+            if is_one(ops[ka].shape[ia]) != is_one(ops[kb].shape[ib]):
+                continue                        # broadcast singleton, not a contraction
+            pairs.setdefault((ka, kb), ([], []))
+            pairs[(ka, kb)][0].append(ia)
+            pairs[(ka, kb)][1].append(ib)
+        elif len(occ) == 1:
+            A.CTX.event('sum-axis', array=ops[occ[0][0]], axes=(ch,), legs=[ops[occ[0][0]].legs[occ[0][1]]])
+    for (ka, kb), (ax_a, ax_b) in pairs.items():
+        A.check_contract(ops[ka], ops[kb], ax_a, ax_b, f'einsum {pattern}')
     A.CTX.event('einsum', pattern=pattern, ops=ops)
     oshape, olegs = [], []
     for ch in out:
